@@ -4471,6 +4471,8 @@ def bundle_recovery(P, R, L):
     from . import blind
     R.clause("ORD-23", "a completely read log fragment is counted in the reader's cursor and block offset before it is parsed")
     R.once(blind.ord23_reader_position_follows_the_file, P, R, L)
+    R.clause("GRD-6 (source)", "ErrorKind::UnexpectedEof - which read_record turns into a clean end of the log - is constructed only behind a short read")
+    R.once(blind.grd6b_eof_only_from_a_short_read, P, R, L)
     R.clause("FS-3", "the in-memory file system's rename moves the file (replacing the destination) and remove_file removes it; Ok only when that happened")
     R.once(blind.fs3_memory_rename_and_remove, P, R, L)
 
